@@ -16,13 +16,16 @@
     quadratic pieces that starts exactly at the current position and ends exactly at the target
     (one `line_to(target)` for a straight arc); the adapter's `current_position` afterwards is the
     target, and it is the last point handed to the builder.
-  * `svg_arc_semantics_real` (centre form `arc(center, radii, sweep, x_rotation)`): the calls are the
-    `move_to` / `line_to` to the ellipse point at the start angle that the code issues, then a
-    connected run from that point to `arc.sample 1` (`|sweep| ≤ 2π`) resp. back to `arc.sample 0`
-    after 8 pieces (`|sweep| > 2π`, the clamp of finding C13-bezier-sweep-clamped);
-    `current_position` afterwards is the last point handed to the builder — EXCEPT in one case,
-    `svg_arc_zero_sweep_stale_witness`: zero sweep inside a sub-path with the current position off
-    the ellipse by less than 0.1 (finding C15-arc-zero-sweep-stale-position).
+  * `svg_arc_semantics_real` (centre form `arc(center, radii, sweep, x_rotation)`, full strength): the
+    calls are the `move_to` / `line_to` to the ellipse point at the start angle that the code issues,
+    then a connected run from that point to `arc.sample 1` (`|sweep| ≤ 2π`) resp. back to
+    `arc.sample 0` after 8 pieces (`|sweep| > 2π`, the clamp of finding C13-bezier-sweep-clamped);
+    `current_position` afterwards is the last point handed to the builder in EVERY case.  (Before lyon
+    commit 250152af this failed for a zero sweep inside a sub-path with the start point off the
+    current position by less than 0.1 — finding C15-arc-zero-sweep-stale-position, found here;
+    `svg_arc_zero_sweep_repaired` is its former witness input, now in sync.)
+  * `svg_current_position_synced`: for every scalar type, every geometry, every command sequence:
+    `current_position` is the wrapped builder's current point whenever a sub-path is open.
   * `svg_arc_on_curve_real`: centre form with the current position on the ellipse: the arc starts
     exactly at the current position.
   * `svg_path_connected_real`, `svg_path_connected_svg_commands_real`, `svg_path_connected_of_laws`:
@@ -34,7 +37,7 @@
   Definitions used in the statements: `Lemmas/SvgGeoConcrete.lean` (`lastPoint`, `edgeStarts`: the
   wrapped builder's own current point after / in front of each call; `Run`; `GeoQ`, `froms`,
   `runFroms`; `Synced`; `RunOk`, `NoCenterArc`) and `Lemmas/SvgGeoConcreteSem.lean` (`realGeo`,
-  `realGeoQ`, `ArcToSem`, `arcOf`, `arcStart`, `arcLead`, `StaleCase`, `CenterArcsOk`, `f32Eps`, the
+  `realGeoQ`, `ArcToSem`, `arcOf`, `arcStart`, `arcLead`, `CenterArcsOk`, `f32Eps`, the
   witness state `wS`, `wR`).  The same `concreteGeo` runs at `Float32` (pieces at `Float`) against
   the real `WithSvg` with no advice in family `svg_arc_e2e` of the check.
 -/
@@ -88,10 +91,12 @@ every state, every operands (any radii, any sweep).
   pieces of `arc`, a connected run from `start` to `e`, where `e = arc.sample 1 = arc.to()` for
   `|sweep| ≤ 2π` and `e = arc.sample 0` after exactly 8 pieces for `|sweep| > 2π`; there is no piece
   iff `sweep = 0`;
-* `current_position` afterwards is `e` if there is a piece, `start` after an implicit move-to, the
-  old position otherwise; `last_ctrl` is `current_position`;
-* `current_position` is the builder's current point afterwards (`Synced`) unless `StaleCase`, in
-  which the builder is at `start` and `current_position` still is the old position. -/
+* `current_position` afterwards is `e` if there is a piece, else `start` after an implicit move-to
+  or a connecting line, else the old position; `last_ctrl` is `current_position`;
+* in EVERY case `current_position` is the wrapped builder's current point afterwards (`Synced`):
+  full strength since lyon commit 250152af repaired finding C15-arc-zero-sweep-stale-position
+  (before, this failed for a zero sweep inside a sub-path with the start point off the current
+  position by less than 0.1: `line_to(start)` did not update `current_position`). -/
 theorem svg_arc_semantics_real [Eps ℝ] (s : St ℝ) (r : ArcArgs ℝ) :
     (approxEqPt s.cur r.center = true → step realGeo s (.arc r) = ({ s with lastCtrl := s.cur }, []))
     ∧ (approxEqPt s.cur r.center = false →
@@ -102,13 +107,14 @@ theorem svg_arc_semantics_real [Eps ℝ] (s : St ℝ) (r : ArcArgs ℝ) :
           ∧ (step realGeo s (.arc r)).2 =
               arcLead s (arcStart s r) ++ quadCalls ((quadsOf (arcOf s r)).map pieceCall)
           ∧ (step realGeo s (.arc r)).1.cur =
-              (if r.sweepAngle = 0 then (if s.needMoveTo then arcStart s r else s.cur) else ofP e)
-          ∧ (step realGeo s (.arc r)).1.lastCtrl = (step realGeo s (.arc r)).1.cur
-          ∧ (∀ p, Synced s p → ¬ StaleCase s r →
-              Synced (step realGeo s (.arc r)).1 (lastPoint p (step realGeo s (.arc r)).2))
-          ∧ (∀ p, StaleCase s r → lastPoint p (step realGeo s (.arc r)).2 = some (arcStart s r)
-              ∧ (step realGeo s (.arc r)).1.cur = s.cur)) := by
-  constructor
+              (if r.sweepAngle = 0 then
+                (if s.needMoveTo then arcStart s r
+                 else if nearStart (arcStart s r) s.cur then arcStart s r else s.cur)
+               else ofP e)
+          ∧ (step realGeo s (.arc r)).1.lastCtrl = (step realGeo s (.arc r)).1.cur)
+    ∧ (∀ p, Synced s p →
+        Synced (step realGeo s (.arc r)).1 (lastPoint p (step realGeo s (.arc r)).2)) := by
+  refine ⟨?_, ?_, fun p hp => step_synced realGeo s (.arc r) p hp⟩
   · intro h
     show arc s (centerOutQ quadsOf r s.cur).erase = _
     have h' : approxEqPt s.cur (ofP (toP r.center)) = true := h
@@ -137,12 +143,16 @@ theorem svg_arc_semantics_real [Eps ℝ] (s : St ℝ) (r : ArcArgs ℝ) :
         rw [hl] at this
         simpa [lastTo, pieceCall] using this
     have hcur : (step realGeo s (.arc r)).1.cur =
-        (if r.sweepAngle = 0 then (if s.needMoveTo then arcStart s r else s.cur) else ofP e) := by
+        (if r.sweepAngle = 0 then
+          (if s.needMoveTo then arcStart s r
+           else if nearStart (arcStart s r) s.cur then arcStart s r else s.cur)
+         else ofP e) := by
       show (arc s (realGeo.center r s.cur)).1.cur = _
       rw [hout, arc_curve_eq]
       by_cases h0 : r.sweepAngle = 0
       · have hq := hnil.mpr h0
-        cases hn : s.needMoveTo <;> simp [h0, hq, lastTo]
+        cases hn : s.needMoveTo <;> cases hnear : nearStart (arcStart s r) s.cur <;>
+          simp [h0, hq, lastTo]
       · have hq : quadsOf (arcOf s r) ≠ [] := fun hq => h0 (hnil.mp hq)
         cases hn : s.needMoveTo <;> simp [h0, hlastAny _ hq]
     have hcalls : (step realGeo s (.arc r)).2 =
@@ -151,68 +161,44 @@ theorem svg_arc_semantics_real [Eps ℝ] (s : St ℝ) (r : ArcArgs ℝ) :
       rw [hout, arc_curve_eq]
       unfold arcLead
       cases hn : s.needMoveTo <;> simp
-    refine ⟨e, hrun, h1, h2, hnil, hcalls, hcur, ?_, ?_, ?_⟩
-    · show (arc s (realGeo.center r s.cur)).1.lastCtrl = (arc s (realGeo.center r s.cur)).1.cur
-      exact arc_lastCtrl s _
-    · intro p hp hns hopen
-      rw [hcalls, hcur]
-      have hno : (step realGeo s (.arc r)).1.needMoveTo = false := hopen
-      unfold arcLead
-      cases hn : s.needMoveTo
-      · have hpe := hp hn
-        subst hpe
-        by_cases h0 : r.sweepAngle = 0
-        · have hq := hnil.mpr h0
-          simp only [h0, hq, if_true, Bool.false_eq_true, if_false, List.map_nil, quadCalls, List.append_nil]
-          cases hnear : nearStart (arcStart s r) s.cur
-          · simp [lastPoint]
-          · have : arcStart s r = s.cur := by
-              by_contra hne
-              exact hns ⟨hn, h0, hnear, hne⟩
-            simp [lastPoint, this]
-        · have hq : quadsOf (arcOf s r) ≠ [] := fun hq => h0 (hnil.mp hq)
-          simp only [h0, if_false, Bool.false_eq_true]
-          cases hnear : nearStart (arcStart s r) s.cur
-          · simp only [Bool.false_eq_true, if_false, List.nil_append, lastPoint_quadCalls, hlastAny _ hq]
-          · simp only [if_true, lastPoint_append, lastPoint, lastPoint_quadCalls, hlastAny _ hq]
-      · simp only [if_true]
-        rw [lastPoint_append p (endIfNeeded s ++ ([Call.begin (arcStart s r) ()] : Calls ℝ)),
-          lastPoint_endIfNeeded_begin, lastPoint_quadCalls, hlastS]
-        by_cases h0 : r.sweepAngle = 0
-        · have hq := hnil.mpr h0
-          have : ofP e = arcStart s r := by rw [← hlastS, hq]; rfl
-          simp [h0, this]
-        · simp [h0]
-    · rintro p ⟨hn, h0, hnear, hne⟩
-      have hq := hnil.mpr h0
-      rw [hcalls, hcur]
-      simp [arcLead, hn, h0, hq, hnear, lastPoint, quadCalls]
+    refine ⟨e, hrun, h1, h2, hnil, hcalls, hcur, ?_⟩
+    show (arc s (realGeo.center r s.cur)).1.lastCtrl = (arc s (realGeo.center r s.cur)).1.cur
+    exact arc_lastCtrl s _
 
 /-- **`svg_arc_on_curve_real`** — centre form, non-zero radii, current position ON the ellipse
 (`current = center + sample_ellipse(radii, x_rotation, t)` for some `t`): the arc starts exactly at
-the current position, so `StaleCase` is impossible. -/
+the current position (so the connecting `line_to`, if any, has zero length and the first piece
+starts at the path's current point). -/
 theorem svg_arc_on_curve_real (s : St ℝ) (r : ArcArgs ℝ) (hx : r.radii.x ≠ 0) (hy : r.radii.y ≠ 0)
     (t : ℝ) (ht : toP s.cur = toP r.center + Arc.sampleEllipse (toP r.radii) r.xrot t) :
-    arcStart s r = s.cur ∧ ¬ StaleCase s r := by
-  have h := arcStart_on_curve s r hx hy t ht
-  exact ⟨h, fun hs => hs.2.2.2 h⟩
+    arcStart s r = s.cur :=
+  arcStart_on_curve s r hx hy t ht
 
-/-! ### the stale position (finding C15-arc-zero-sweep-stale-position) -/
+/-! ### the formerly stale position (finding C15-arc-zero-sweep-stale-position, repaired) -/
 
-/-- **witness** (concrete geometry over ℝ, lyon's f32 epsilon): inside a sub-path at (1.05, 0), the
-command `arc(center (0,0), radii (1,1), sweep 0, rotation 0)` hands `line_to(1, 0)` to the wrapped
-builder — the path is now at (1, 0) — but leaves `current_position` at (1.05, 0); the following
-`relative_line_to(1, 0)` is resolved against the stale position: the builder receives
-`line_to(41/20, 0)`, an edge of offset (1.05, 0) in the path, not (1, 0).  `current_position` is NOT
-the last point handed to the builder here, and a relative coordinate is not resolved against the
-path's current point. -/
-theorem svg_arc_zero_sweep_stale_witness :
-    step (@realGeo f32Eps) wS (.arc wR) = ({ wS with lastCtrl := wS.cur }, [.line ⟨1, 0⟩ ()])
+/-
+  Former witness (true of the model of lyon BEFORE commit 250152af, no longer true): in the state
+  `wS` (sub-path open at (21/20, 0)) the command `wR` = `arc(center (0,0), radii (1,1), sweep 0,
+  rotation 0)` handed `line_to(1, 0)` to the wrapped builder and left `current_position` at (21/20, 0):
+
+      step realGeo wS (.arc wR) = ({ wS with lastCtrl := wS.cur }, [.line ⟨1, 0⟩ ()])
+      (step realGeo (step realGeo wS (.arc wR)).1 (.relLineTo ⟨1, 0⟩)).2 = [.line ⟨41 / 20, 0⟩ ()]
+
+  so the following `relative_line_to(1, 0)` drew an edge of offset (1.05, 0).  The same input now:
+-/
+
+/-- **`svg_arc_zero_sweep_repaired`** (concrete geometry over ℝ, lyon's f32 epsilon): inside a
+sub-path at (1.05, 0), `arc(center (0,0), radii (1,1), sweep 0, rotation 0)` hands `line_to(1, 0)` to
+the wrapped builder AND moves `current_position` to (1, 0): it is the last point handed to the
+builder, and the following `relative_line_to(1, 0)` is `line_to(2, 0)`. -/
+theorem svg_arc_zero_sweep_repaired :
+    step (@realGeo f32Eps) wS (.arc wR)
+      = ({ wS with cur := ⟨1, 0⟩, lastCtrl := ⟨1, 0⟩ }, [.line ⟨1, 0⟩ ()])
     ∧ wS.needMoveTo = false ∧ wS.cur = ⟨21 / 20, 0⟩
     ∧ lastPoint (some wS.cur) (step (@realGeo f32Eps) wS (.arc wR)).2 = some ⟨1, 0⟩
-    ∧ (step (@realGeo f32Eps) wS (.arc wR)).1.cur = ⟨21 / 20, 0⟩
+    ∧ (step (@realGeo f32Eps) wS (.arc wR)).1.cur = ⟨1, 0⟩
     ∧ (step (@realGeo f32Eps) (step (@realGeo f32Eps) wS (.arc wR)).1 (.relLineTo ⟨1, 0⟩)).2
-        = [.line ⟨41 / 20, 0⟩ ()] := by
+        = [.line ⟨2, 0⟩ ()] := by
   let _ := f32Eps
   have hskip : approxEqPt wS.cur (ofP (toP wR.center)) = false := by
     simp only [approxEqPt, wS, wR, moveTo, ofP, toP, sc_abs, ofSci_eq, Bool.and_eq_false_iff,
@@ -234,17 +220,26 @@ theorem svg_arc_zero_sweep_stale_witness :
       sc_zero, h0, hq', List.map_nil]
     have : ofP (⟨1, 0⟩ : P ℝ) = (⟨1, 0⟩ : Pt ℝ) := rfl
     rw [this, hnear]
-  have hstep : step realGeo wS (.arc wR) = ({ wS with lastCtrl := wS.cur }, [.line ⟨1, 0⟩ ()]) := by
+  have hstep : step realGeo wS (.arc wR)
+      = ({ wS with cur := ⟨1, 0⟩, lastCtrl := ⟨1, 0⟩ }, [.line ⟨1, 0⟩ ()]) := by
     show arc wS (realGeo.center wR wS.cur) = _
     rw [hout, arc_curve_eq]
     simp [wS, moveTo, lastTo, quadCalls]
   refine ⟨hstep, rfl, rfl, ?_, ?_, ?_⟩
   · rw [hstep]; rfl
-  · rw [hstep]; rfl
+  · rw [hstep]
   · rw [hstep]
     simp [step, lineTo, beginIfNeeded, relToAbs, wS, moveTo]
-    show (⟨21 / 20 + 1, 0 + 0⟩ : Pt ℝ) = ⟨41 / 20, 0⟩
+    show (⟨1 + 1, 0 + 0⟩ : Pt ℝ) = ⟨2, 0⟩
     norm_num
+
+/-- the name under which the witness of the finding was stated before the repair; now the statement
+that the witness input is in sync (same as `svg_arc_zero_sweep_repaired`) -/
+theorem svg_arc_zero_sweep_stale_witness :
+    lastPoint (some wS.cur) (step (@realGeo f32Eps) wS (.arc wR)).2
+      = some (step (@realGeo f32Eps) wS (.arc wR)).1.cur := by
+  obtain ⟨_, _, _, h1, h2, _⟩ := svg_arc_zero_sweep_repaired
+  rw [h1, h2]
 
 /-! ### whole sequences -/
 
@@ -258,10 +253,22 @@ theorem svg_path_connected_of_laws {α ρ : Type} [Add α] [Sub α] (g : GeoQ α
       ∧ Synced (run g.erase (St.init zero) cmds).1 (lastPoint none (run g.erase (St.init zero) cmds).2) :=
   run_connected g cmds _ _ (synced_init zero) ho
 
+/-- **`svg_current_position_synced`** — for EVERY scalar type, EVERY arc geometry and EVERY command
+sequence (all 19 commands and `arc`, no side condition): whenever a sub-path is open afterwards, the
+adapter's `current_position` is the last point handed to the wrapped builder.  (Needed the laws
+of the geometry and excluded the stale case before lyon commit 250152af.) -/
+theorem svg_current_position_synced {α ρ : Type} [Add α] [Sub α] (g : Geo α ρ) (zero : α)
+    (cmds : List (Cmd α ρ)) :
+    Synced (run g (St.init zero) cmds).1 (lastPoint none (run g (St.init zero) cmds).2) :=
+  run_synced g cmds _ _ (synced_init zero)
+
 /-- **`svg_path_connected_real`** — whole sequences with the concrete geometry over ℝ.  For EVERY
-command sequence over the 19 `SvgPathBuilder` commands and the centre-form `arc` (the latter issued
-outside a sub-path, or skipped, or from a current position on its ellipse: `CenterArcsOk`), from
-the empty builder:
+command sequence over the 19 `SvgPathBuilder` commands and the centre-form `arc`, from the empty
+builder.  `CenterArcsOk` is needed for the chain statement only (`Synced` holds without it:
+`svg_current_position_synced`); it excludes exactly a centre-form arc with non-zero sweep issued
+inside a sub-path, not skipped, whose start point is 0.1 or more away from a current position that
+is not on its ellipse — there the code draws no connecting line and the first piece does not start
+at the path's current point.
 * `edgeStarts`: in front of every edge call the wrapped builder's current point — where the edge
   starts in the path being built — is exactly the point the adapter means it to start
   (`runFroms`: `current_position` for lines and curves, the piece's own start point for every
@@ -315,12 +322,12 @@ the sequence also contains an `arc_to` -/
 example : @CenterArcsOk f32Eps (St.init 0)
     [.moveTo ⟨1, 0⟩, .arc ⟨⟨1, 1⟩, 0, false, false, ⟨0, 0⟩, 1⟩] := by
   refine ⟨trivial, ?_, trivial⟩
-  right; right
+  right; right; right; right
   refine ⟨by norm_num, by norm_num, 0, ?_⟩
   exact on_unit_circle
 
 /-- both cases of `svg_arc_semantics_real` occur: at the centre the arc is skipped, at (21/20, 0) it
-is not (and `StaleCase wS wR` holds there: `svg_arc_zero_sweep_stale_witness`) -/
+is not (the formerly stale input of `svg_arc_zero_sweep_repaired`) -/
 example : approxEqPt (⟨0, 0⟩ : Pt ℝ) ⟨0, 0⟩ = true ∧ approxEqPt wS.cur wR.center = false := by
   constructor
   · simp [approxEqPt, sc_abs, ofSci_eq]
